@@ -127,7 +127,7 @@ def run_stats(files):
                     if e.get("bad"):
                         cur["garbage"] += 1
                 elif k == "call":
-                    sig += e["kind"] + str(e["qos"])
+                    sig += e["kind"] + str(e["qos"]) + ":%d:%d:%s:%d" % (e["tl"], e["pl"], e["fl"], cur["M"])
                     cur["calls"] += 1
                 elif k == "drop":
                     sig += e["task"]
@@ -143,6 +143,11 @@ def run_stats(files):
                         cur["faults"] += 1
                 elif k == "reconnect":
                     cur["reconn"] += 1
+                elif k == "fuzz":
+                    cur["garbage"] += 1
+                    sig += e["phase"] + e["case"] + e["fault"] + e["o1"] + e["k1"] + e["o2"] + e["hex"]
+                elif k == "disccmp":
+                    cur["spur"] += 1
                 cur["h"].update(sig.encode())
     for v in out.values():
         v["sig"] = v.pop("h").hexdigest()
@@ -166,12 +171,16 @@ def gen_family(bins, fam, tier, d, mode="dev"):
             files.append((t, s))
     else:
         shards = 8
-        for i in range(shards):
+        import concurrent.futures
+        def one(i):
             t = os.path.join(d, "%s-%s-%d.ndjson" % (fam["name"], mode, i))
             s = os.path.join(d, "%s-%s-%d.scripts" % (fam["name"], mode, i))
             vlib.pvh(bins[mode], [fam["gen"], "--tier", tier, "--seed", seed, "--shard", i, "--shards", shards, "--out", t, "--scripts", s] + fam["extra"])
-            if os.path.getsize(t) > 20:
-                files.append((t, s))
+            return (t, s)
+        with concurrent.futures.ThreadPoolExecutor(max_workers=8) as ex:
+            for t, s in ex.map(one, range(shards)):
+                if os.path.getsize(t) > 20:
+                    files.append((t, s))
     return files
 
 
